@@ -1,4 +1,4 @@
-import ProcSim.Lemmas.Routes
+import ProcSim.Lemmas.StructWF
 /-!
 # C03 — each instruction follows one legal gap-free route from an input to an output
 
@@ -384,5 +384,27 @@ example : ∃ tbl, Diagram proc prog tbl true ∧ (Spec.C03 (ctx proc prog tbl t
   | fault f => rw [h] at hd; cases hd
 
 end C03StallExample
+
+/-! ## Corollaries: C03 needs only the structural part of `wfProc`
+
+`structOK` (`Lemmas/StructWF.lean`) = unique unit names, sink-first order with existing non-output predecessors, no
+repeated predecessor. Neither "every unit has a capability" nor the lock-placement condition on routes is used by the
+route proofs; in particular C03 holds for every processor the loader produces (`Props/C16b.lean`). -/
+
+section struct_
+variable {N : Type} [DecidableEq N] [LT N] [DecidableRel (α := N) (· < ·)]
+
+/-- **C03 from `structOK` (readable form).** -/
+theorem C03_routes_struct' (p : Proc N) (prog : List (Instr N)) (tbl : List (Util N)) (stalled : Bool)
+    (hs : structOK p = true) (h : Diagram p prog tbl stalled) : C03_Holds (ctx p prog tbl stalled) := by
+  obtain ⟨E, hE⟩ := Diagram_routed_struct hs h
+  exact hE.c03_holds
+
+/-- **C03 from `structOK`.** -/
+theorem C03_routes_struct (p : Proc N) (prog : List (Instr N)) (tbl : List (Util N)) (stalled : Bool)
+    (hs : structOK p = true) (h : Diagram p prog tbl stalled) : (Spec.C03 (ctx p prog tbl stalled)).ok = true :=
+  (C03_ok_iff _).2 (C03_routes_struct' p prog tbl stalled hs h)
+
+end struct_
 
 end ProcSim
